@@ -20,6 +20,9 @@ pub struct Case {
     pub lines: Vec<Line>,
     /// per line: expand the pseudo-instruction to its official form in the second rendering
     pub expand: Vec<bool>,
+    /// per line: which of the equivalent spellings of the expansion to use
+    #[serde(default)]
+    pub variant: Vec<bool>,
     pub style: Vec<u32>,
     pub source: String,
 }
@@ -69,7 +72,7 @@ pub fn locate(diags: &[Diag], rd: &Rendered, lines: &[Line]) -> Result<Vec<Locat
 }
 
 /// Official expansion of a pseudo-instruction and the operand index map pseudo -> official.
-pub fn official(i: &Ins) -> Option<(Ins, Vec<Option<usize>>)> {
+pub fn official(i: &Ins, alt: bool) -> Option<(Ins, Vec<Option<usize>>)> {
     let o = &i.ops;
     let rr = |k: usize| o.get(k).cloned();
     let z = Opd::R(ZERO);
@@ -98,8 +101,18 @@ pub fn official(i: &Ins) -> Option<(Ins, Vec<Option<usize>>)> {
         ("bleu", 3) => (Ins::new("bgeu", vec![rr(1)?, rr(0)?, rr(2)?]), vec![Some(1), Some(0), Some(2)]),
         ("j", 1) => (Ins::new("jal", vec![z, rr(0)?]), vec![Some(1)]),
         ("jal", 1) | ("call", 1) => (Ins::new("jal", vec![Opd::R(RA), rr(0)?]), vec![Some(1)]),
-        ("jr", 1) => (Ins::new("jalr", vec![z, rr(0)?, Opd::I(0)]), vec![Some(1)]),
-        ("ret", 0) => (Ins::new("jalr", vec![z, Opd::R(RA), Opd::I(0)]), vec![]),
+        // jalr has two equivalent spellings: `jalr rd, rs, imm` and `jalr rd, imm(rs)` (offset may be omitted)
+        ("jr", 1) => match (alt, rr(0)?) {
+            (true, Opd::R(s)) => (Ins::new("jalr", vec![z, Opd::M(0, s)]), vec![Some(1)]),
+            _ => (Ins::new("jalr", vec![z, rr(0)?, Opd::I(0)]), vec![Some(1)]),
+        },
+        ("ret", 0) => {
+            if alt {
+                (Ins::new("jalr", vec![z, Opd::M(0, RA)]), vec![])
+            } else {
+                (Ins::new("jalr", vec![z, Opd::R(RA), Opd::I(0)]), vec![])
+            }
+        }
         _ => return None,
     })
 }
@@ -148,10 +161,12 @@ impl Prop for C13 {
             }
         };
         let expand = lines.iter().map(|_| ch.chance(1, 2)).collect();
+        let variant = lines.iter().map(|_| ch.chance(1, 2)).collect();
         let style = (0..(lines.len() * 6).min(700)).map(|_| ch.raw()).collect();
         Some(Case {
             lines,
             expand,
+            variant,
             style,
             source: source.to_string(),
         })
@@ -168,7 +183,7 @@ impl Prop for C13 {
         for (k, l) in case.lines.iter().enumerate() {
             if let Line::Ins(i) = l {
                 if case.expand.get(k).copied().unwrap_or(false) {
-                    if let Some((ex, m)) = official(i) {
+                    if let Some((ex, m)) = official(i, case.variant.get(k).copied().unwrap_or(false)) {
                         ctx.label(format!("expanded:{}", i.mn));
                         lines_b[k] = Line::Ins(ex);
                         maps.insert(k, m);
